@@ -84,15 +84,32 @@ func oracle(cs caseSpec, res *execResult) func(w *world.World, r *race.Result) {
 				res.detail = fmt.Sprintf("secret #%d swapped but reported %s; schedule: %s", ix, r.States[ix], r.Trace)
 				return
 			}
+			// a new attempt on a quote whose earlier payment failed: the signature says how many requests of the case
+			// look the payment up (one finds the failure out; a second one can meet the new attempt before its pay call)
+			retry := ""
+			if strings.Contains(by[0], "retry_on_failed_quote") {
+				n := 0
+				for _, q := range cs.Reqs {
+					if q.Kind == "pollmelt" || q.Kind == "check" {
+						n++
+					}
+				}
+				retry = fmt.Sprintf("|lookups=%d", n)
+			}
 			if r.States[ix] == "UNSPENT" {
-				res.violation = "C01|sched|accepted_secret_reported_unspent|by=" + by[0]
+				sig := "C01|sched|accepted_secret_reported_unspent|by=" + by[0] + retry
+				if rec.IsKnown(sig) {
+					res.knownHit = true
+					continue
+				}
+				res.violation = sig
 				res.detail = fmt.Sprintf("secret #%d was accepted by %s but is reported UNSPENT once all requests have returned; outcomes %s; schedule: %s", ix, by[0], r.FmtOutcomes(), r.Trace)
 				return
 			}
 			in := cashu.Proofs{r.Funded[ix].P}
 			fee := w.FeeFor(in)
 			if _, err := w.Mint.Swap(in, world.Msgs(w.MakeOutputs(world.Split(r.Funded[ix].P.Amount-fee), w.ActiveID))); err == nil {
-				res.violation = "C01|sched|accepted_secret_spendable_again|by=" + by[0]
+				res.violation = "C01|sched|accepted_secret_spendable_again|by=" + by[0] + retry
 				res.detail = fmt.Sprintf("secret #%d was accepted by %s and a later swap of it succeeded; outcomes %s; schedule: %s", ix, by[0], r.FmtOutcomes(), r.Trace)
 				return
 			}
@@ -203,6 +220,9 @@ func pairName(cs caseSpec) string {
 	}
 	for _, r := range cs.Reqs {
 		k = append(k, r.Kind+r.LN)
+		if r.SameQuote {
+			k[len(k)-1] += "retry"
+		}
 	}
 	return strings.Join(k, "_")
 }
@@ -225,6 +245,13 @@ var pairCases = []caseSpec{
 	{Pre: "melt_succeeded", Reqs: []reqSpec{{Kind: "pollmelt", Quote: -1}, {Kind: "melt", Inputs: []int{0}, LN: "success"}}},
 	{Pre: "melt_failed", Reqs: []reqSpec{{Kind: "check", Inputs: []int{0}}, {Kind: "swap", Inputs: []int{0}}}},
 	{Pre: "melt_inflight", Reqs: []reqSpec{{Kind: "pollmelt", Quote: -1}, {Kind: "swap", Inputs: []int{0}}}},
+	// a melt whose payment has failed, which the mint has not found out yet: the poll / state check that finds out
+	// races the wallet's next attempt on the same quote (other inputs, proof 0 is still locked)
+	{Pre: "melt_failed", Reqs: []reqSpec{{Kind: "pollmelt", Quote: -1}, {Kind: "melt", Inputs: []int{1}, LN: "pending", SameQuote: true}}},
+	{Pre: "melt_failed", Reqs: []reqSpec{{Kind: "check", Inputs: []int{0}}, {Kind: "melt", Inputs: []int{1}, LN: "pending", SameQuote: true}}},
+	{Pre: "melt_failed", Reqs: []reqSpec{{Kind: "pollmelt", Quote: -1}, {Kind: "melt", Inputs: []int{1}, LN: "success", SameQuote: true}}},
+	{Pre: "melt_failed", Reqs: []reqSpec{{Kind: "pollmelt", Quote: -1}, {Kind: "melt", Inputs: []int{1}, LN: "pending", SameQuote: true}, {Kind: "pollmelt", Quote: -1}}},
+	{Pre: "melt_failed", Reqs: []reqSpec{{Kind: "pollmelt", Quote: -1}, {Kind: "melt", Inputs: []int{1}, LN: "pending", SameQuote: true}, {Kind: "swap", Inputs: []int{1}}}},
 	// three requests: a state check or quote poll in the middle of a melt, and a swap of the same secret
 	{Reqs: []reqSpec{{Kind: "melt", Inputs: []int{0}, LN: "success"}, {Kind: "check", Inputs: []int{0}}, {Kind: "swap", Inputs: []int{0}}}},
 	{Reqs: []reqSpec{{Kind: "melt", Inputs: []int{0}, LN: "success"}, {Kind: "pollmelt", Quote: 0}, {Kind: "swap", Inputs: []int{0}}}},
